@@ -1,4 +1,5 @@
 """C15 — alias tracking is exact: no leaked write, no spurious refusal."""
+import copy as _copy
 import gc
 
 from hypothesis import strategies as st
@@ -150,6 +151,8 @@ RESULT_OPS = {
     "upper": lambda v: v.upper(), "year": lambda v: v.year, "bit_length": lambda v: v.bit_length(), "is_integer": lambda v: v.is_integer(),
     "column_of_table": lambda v: S.Table({"c": list(v)}).c, "column_after_select": lambda v: S.Table({"c": list(v), "d": list(v)})["d", "c"].cols()[0],
     "row_slice_column": lambda v: S.Table({"c": list(v)})[0:len(v)].c, "new": lambda v: S.Vector.new(v[0], len(v)),
+    # Python's copy protocol
+    "copy_copy": lambda v: _copy.copy(v), "deepcopy": lambda v: _copy.deepcopy(v),
 }
 RESULT_EL = {"int": st.integers(-3, 9), "float": st.sampled_from([0.5, -1.5, 2.0, 0.0]), "str": st.sampled_from(["a", "b", ""]),
              "bool": st.booleans(), "date": st.sampled_from([W._date(2020, 1, 1), W._date(2021, 5, 6)])}
@@ -206,6 +209,23 @@ def run_results(case, ctx):
         snaps[i] = W.snap(r)
         if (W.snap(a), W.snap(b)) != (sa, sb):
             return ctx.fail(f"results/write-observed-by-the-operand/{name}", f"{sa} -> {W.snap(a)}")
+    # the duplicate outlives its source: once the source is gone nothing shares the duplicate's storage
+    for how in ("copy", "copy_copy", "deepcopy", "slice_full"):
+        if not case["a"]:
+            break
+        src = S.Vector(list(case["a"]))
+        try:
+            dup = RESULT_OPS[how](src)
+        except Exception:  # noqa: BLE001
+            continue
+        del src                    # (reference counting frees it at once; no collector pass needed)
+        ctx.ev()
+        try:
+            dup[0] = dup[len(dup) - 1]
+        except S.AliasError as e:
+            return ctx.fail(f"results/spurious-refusal/{how}-after-source-dropped", f"{how} of a {case['kind']} vector {case['a']}, source dropped and collected: {e}")
+        except Exception:  # noqa: BLE001
+            pass
     ctx.label("results_held", len(held))
     if len(held) >= 3:
         ctx.nontrivial()
